@@ -235,6 +235,9 @@ func check(id, tier string) int {
 	foundDev := map[string]int{}
 	broken := ""
 	for _, pt := range p.Parts(tier) {
+		if only := os.Getenv("VERIF_PARTS"); only != "" && !strings.Contains(","+only+",", ","+pt.Name+",") {
+			continue // debugging aid: run selected parts only (evidence then covers only those)
+		}
 		pstart := time.Now()
 		n := pt.Workers
 		if n == 0 {
